@@ -1037,6 +1037,8 @@ pub struct ObjFiber {
     pub(crate) return_handler_count: usize,
     // Number of call frames when `return_ip`/`return_value` were parked: the frame the parked return belongs to.
     pub(crate) return_frame_count: usize,
+    // Number of call frames of the function whose finally block `pending_exception` waits in.
+    pub(crate) pending_frame_count: usize,
     pub(crate) error_ip: Option<*const u8>,
     pub(crate) handling_exception: bool,
 }
@@ -1064,6 +1066,7 @@ impl ObjFiber {
             return_ip: None,
             return_handler_count: 0,
             return_frame_count: 0,
+            pending_frame_count: 0,
             error_ip: None,
             handling_exception: false,
         }
